@@ -51,10 +51,11 @@ def entry_functions(units):
                 yield u, f, m
 
 
-def rule_B(ck, an, units, only=None, floor=50):
-    ck.rule('B.work-arrays', 'every data member written inside operator()/apply*/solve/cycle is killed (clear, copy-into, zero-coefficient overwrite, fill, '
-                             'element assignment) before its first read on every path of the call', floor)
-    for u, f, m in entry_functions(units):
+def rule_B(ck, an, units, only=None, floor=50, entries=None, rule='B.work-arrays'):
+    if rule == 'B.work-arrays':
+        ck.rule('B.work-arrays', 'every data member written inside operator()/apply*/solve/cycle is killed (clear, copy-into, zero-coefficient overwrite, fill, '
+                                 'element assignment) before its first read on every path of the call', floor)
+    for u, f, m in (entries if entries is not None else entry_functions(units)):
         if only is not None and not only(f):
             continue
         acc = [a for a in an.accesses(f) if a.root[0] == 'this']
@@ -98,9 +99,25 @@ def rule_B(ck, an, units, only=None, floor=50):
             key = '%s::%s|%s' % (f.cls, m, r[1])
             if (f.cls, r[1]) in ELEMENTWISE_OK:
                 continue
-            ck.ob('B.work-arrays', key, f.where(a.node) if a else f.where(), a is None,
+            ck.ob(rule, key, f.where(a.node) if a else f.where(), a is None,
                   '' if a is None else 'in %s: member `%s` is read (%s) at %s on a path where this call has not initialised it yet: its value leaks from the previous call' % (
                       f.full[:120], r[1], a.why, f.where(a.node)))
+
+
+def qr_entries(units):
+    """the methods of detail::QR that (re)build its member buffers: a QR object is reused for every row / aggregate"""
+    for u in units.values():
+        seen = set()
+        for f in u.funcs:
+            if f.cls == 'amgcl::detail::QR' and f.cfg is not None and f.q.split('::')[-1] in ('factorize', 'compute_q', 'compute', 'solve') and (f.file, f.line) not in seen:
+                seen.add((f.file, f.line))
+                yield u, f, f.q.split('::')[-1]
+
+
+def rule_B_qr(ck, an, units, floor=3):
+    ck.rule('B.qr-buffers', 'detail::QR (one object reused for many small factorisations): every member buffer (r, q, tau, f) written by factorize / compute_q / solve is killed '
+                            'before its first read in that call - vector::resize(n[, v]) does not re-initialise elements that already exist', floor)
+    rule_B(ck, an, units, entries=list(qr_entries(units)), rule='B.qr-buffers')
 
 
 def rule_A(ck, an, units):
@@ -286,6 +303,75 @@ def rule_E(ck, units, floor=1):
                       cls, missing, ', '.join(sorted({f.q.split('::')[-1] for f in fs if not f.j.get('ctor') and f not in clears and (written_members(f) & set(missing))}))), trivial=not state)
 
 
+def rule_F(ck, units, control):
+    """F.resize-is-not-reset: std::vector::resize(n, v) value-initialises only the elements it CREATES.  On a data member of an object that
+    lives across calls it is not a re-initialisation: elements that already exist keep the values of the previous use.  Accepted:
+    constructors and functions reachable only from constructors of the class (the member is still empty), or a dominating
+    member.clear() in the same function."""
+    ck.rule('F.resize-is-not-reset', 'no non-constructor member function relies on member.resize(n, value) to (re)initialise a data member: every two-argument resize of a member '
+                                     'happens in a constructor / constructor-only helper or after a dominating member.clear()', 0)
+    found_control = False
+    done = set()
+    for u in list(units.values()) + [control]:
+        callers = {}
+        for g in u.funcs:
+            if g.body is None:
+                continue
+            for c in g.calls():
+                if 'fd' in c:
+                    callers.setdefault(c['fd'], set()).add(g.id)
+
+        def ctor_only(f, depth=0, seen=None):
+            seen = seen or set()
+            if f.j.get('ctor'):
+                return True
+            if depth > 3 or f.id in seen:
+                return False
+            seen = seen | {f.id}
+            cs = [u.by_id[c] for c in callers.get(f.id, ()) if c in u.by_id]
+            cs = [g for g in cs if g.cls == f.cls]
+            return bool(cs) and all(ctor_only(g, depth + 1, seen) for g in cs)
+        for f in u.funcs:
+            if f.body is None or not f.cls or (f.file, f.line) in done:
+                continue
+            if not (f.rel().startswith('amgcl/') or f.q.startswith('verif_control::')):
+                continue
+            sites = []
+            for n in f.nodes.values():
+                if n['k'] == 'call' and n.get('m') == 'resize' and n.get('obj') is not None and len([a for a in n.get('a', []) if a is not None and a.get('k') != 'defarg']) == 2:
+                    o = unwrap(n['obj'])
+                    if o is not None and o['k'] == 'mem' and (o.get('b') is None or unwrap(o['b'])['k'] == 'this'):
+                        t = u.type(o.get('ty')) if o.get('ty') is not None else ''
+                        if 'numa_vector' in t:
+                            continue          # amgcl's own resize(size, bool init) has other semantics
+                        sites.append((n, o['n']))
+            if not sites:
+                continue
+            done.add((f.file, f.line))
+            loc = locate(f) if f.cfg is not None else {}
+            dom = f.cfg.dominators() if f.cfg is not None else {}
+            for n, mname in sites:
+                ok = ctor_only(f)
+                why = 'constructor-only'
+                if not ok and n['i'] in loc:
+                    b, pos = loc[n['i']]
+                    for c in f.nodes.values():
+                        if c['k'] == 'call' and c.get('m') == 'clear' and c.get('obj') is not None and c['i'] in loc:
+                            oc = unwrap(c['obj'])
+                            if oc is not None and oc['k'] == 'mem' and oc['n'] == mname:
+                                cb, cpos = loc[c['i']]
+                                if (cb == b and (cpos, c['i']) < (pos, n['i'])) or (cb != b and cb in dom.get(b, ())):
+                                    ok = True
+                if f.q.startswith('verif_control::'):
+                    found_control = found_control or not ok
+                    continue
+                ck.ob('F.resize-is-not-reset', '%s|%s' % (f.q, mname), f.where(n), ok, '' if ok else
+                      '%s at %s: `%s` is a data member of an object that is reused; resize(n, v) leaves the elements that already exist untouched, so values of the previous use survive' % (
+                          show(n)[:60], f.where(n), mname))
+    if not found_control:
+        ck.brk('F.resize-is-not-reset: the positive control verif_control::scratch::prepare (tus/controls.cpp) was not recognised - the rule is blind')
+
+
 def main(tier):
     ck = Check('C15', tier, 'C15 (clauses): solver / preconditioner objects carry no state from one call to the next.')
     T = os.path.join(ir.VERIF, 'tus')
@@ -309,6 +395,8 @@ def main(tier):
         if name in ('rt_builtin', 'mpi_rt'):
             import c02
             c02.rule_AB(ck, {name: u})   # per-level scratch of the multigrid cycle is history-free (shared with C02)
+    cu = ir.run_units([dict(name='controls', src=os.path.join(T, 'controls.cpp'))], 'C15c')
+    rule_F(ck, units, cu['controls'])
     ck.assumptions += ['arrays of vectors / scalars are treated per array, not per element (a kill of one element counts for the array)',
                        'member objects with their own methods (QR, nested solvers) are analysed in their own classes',
                        'callee effects are derived bottom-up from the instantiated bodies; recursion is closed coinductively',
